@@ -291,6 +291,16 @@ func (k *btr) stmtL(label string, s ast.Stmt) string {
 			if ok1 && ok2 {
 				return "(.define2 " + bstr(x) + " " + bstr(y) + " " + k.expr(v.Rhs[0]) + ")"
 			}
+		case v.Tok == token.ASSIGN && len(v.Lhs) == 4 && len(v.Rhs) == 1:
+			ns := []string{}
+			for _, l := range v.Lhs {
+				x, ok := k.name(l)
+				if !ok {
+					return k.unknownStmt(s)
+				}
+				ns = append(ns, bstr(x))
+			}
+			return "(.assign4 " + strings.Join(ns, " ") + " " + k.expr(v.Rhs[0]) + ")"
 		case (v.Tok == token.ADD_ASSIGN || v.Tok == token.SUB_ASSIGN) && len(v.Lhs) == 1 && len(v.Rhs) == 1:
 			op := "+"
 			if v.Tok == token.SUB_ASSIGN {
@@ -376,14 +386,30 @@ func (k *btr) stmtL(label string, s ast.Stmt) string {
 		return "(.range " + bstr(x) + " " + bstr(y) + " " + k.expr(v.X) + "\n " + k.loopBody(label, v.Body) + ")"
 	case *ast.DeclStmt:
 		gd, ok := v.Decl.(*ast.GenDecl)
-		if !ok || gd.Tok != token.VAR || len(gd.Specs) != 1 {
+		if !ok || gd.Tok != token.VAR || len(gd.Specs) == 0 {
 			break
 		}
-		vs := gd.Specs[0].(*ast.ValueSpec)
-		if len(vs.Names) != 1 || len(vs.Values) != 0 || vs.Type == nil {
-			break
+		// `var ( a T; b = e; … )`: one declaration after the other (`var x = e` is `x := e`)
+		parts := []string{}
+		for _, sp := range gd.Specs {
+			vs, ok := sp.(*ast.ValueSpec)
+			if !ok || len(vs.Names) != 1 {
+				return k.unknownStmt(s)
+			}
+			switch {
+			case len(vs.Values) == 0 && vs.Type != nil:
+				parts = append(parts, "(.varDecl "+bstr(vs.Names[0].Name)+" "+bstr(typeName(k.c, vs.Type))+")")
+			case len(vs.Values) == 1 && vs.Type == nil:
+				parts = append(parts, "(.define "+bstr(vs.Names[0].Name)+" "+k.expr(vs.Values[0])+")")
+			default:
+				return k.unknownStmt(s)
+			}
 		}
-		return "(.varDecl " + bstr(vs.Names[0].Name) + " " + bstr(typeName(k.c, vs.Type)) + ")"
+		out := parts[len(parts)-1]
+		for i := len(parts) - 2; i >= 0; i-- {
+			out = "(.seq " + parts[i] + "\n " + out + ")"
+		}
+		return out
 	}
 	return k.unknownStmt(s)
 }
